@@ -200,6 +200,14 @@ def make_case(seed, idx, tier):
         d["kind"] = "c10run"
         if (idx // 4) % 2 and d["gsc"]["k"] != "precision":
             d["reuse"] = True  # the same mechanism / filter objects serve a second tree
+            if (idx // 8) % 2:
+                # short repeated runs in which an elitist parent keeps re-proposing the seed it already sprouted
+                rmin = min(b[1] - b[0] for b in d["box"]["bounds"])
+                d["gsc"] = {"k": "melimit", "n": rng.choice([2, 3, 3, 4])}
+                d["sprout"] = {"k": "custom", "gen": {"k": "best"}, "dfilters": [{"k": "far", "d": rmin * 1e-6, "ord": 2}],
+                               "tfilters": [{"k": "levellimit", "n": 4}, {"k": "skipsame"}], "ll": 4}
+                for lv in d["levels"]:
+                    lv["lsc"] = {"k": "dontstop"}
         return d
     prof = {
         "dim": (2, 3),
